@@ -55,6 +55,9 @@ partial def loop (h : IO.FS.Stream) (w : W) (sh : Sh) (fixed : Bool) : IO Unit :
     | ["add", c] => IO.println "ok"; loop h (classImplements FUEL w c.toNat! args) (sh.step (.classImplements c.toNat! args)) fixed
     | ["only", c] => IO.println "ok"; loop h (classImplementsOnly FUEL w c.toNat! args) (sh.step (.classImplementsOnly c.toNat! args)) fixed
     | ["first", c] => IO.println "ok"; loop h (classImplementsFirst FUEL w c.toNat! args.head!) (sh.step (.classImplementsFirst c.toNat! args.head!)) fixed
+    | ["cprov", _] => IO.println "ok"; loop h w sh fixed          -- what a CLASS OBJECT provides: no effect on implementedBy / instances (judged on the real objects)
+    | ["cprov", _, _] => IO.println "ok"; loop h w sh fixed
+    | ["dp", o, _] => IO.println "ok"; loop h (directlyProvides FUEL w o.toNat! args) (sh.step (.directlyProvides o.toNat! args)) fixed      -- spelled `provider(...)(ob)`
     | ["dp", o] => IO.println "ok"; loop h (directlyProvides FUEL w o.toNat! args) (sh.step (.directlyProvides o.toNat! args)) fixed
     | ["also", o] => IO.println "ok"; loop h (alsoProvides FUEL w o.toNat! args) (sh.step (.alsoProvides o.toNat! args)) fixed
     | ["nl", o] =>
